@@ -34,8 +34,28 @@ def register(COMPONENTS, g):
         return comp_generic("vars", tier, seed, NPROC, ["-spok", os.path.join(BUILD, "spok")], "vars", 900 if tier == "quick" else 3000)
     COMPONENTS["vars"] = comp_vars
 
+    def comp_clean(tier, seed):
+        return comp_generic("clean", tier, seed, NPROC, ["-spok", os.path.join(BUILD, "spok")], "clean", 900 if tier == "quick" else 3000)
+    COMPONENTS["clean"] = comp_clean
+
+    def comp_effects(tier, seed):
+        return comp_generic("effects", tier, seed, NPROC, ["-spok", os.path.join(BUILD, "spok")], "effects", 900 if tier == "quick" else 3000)
+    COMPONENTS["effects"] = comp_effects
+
 
 def register_props(PROPS, g):
+    import subprocess
+    ROOT, BUILD, REPO = g["ROOT"], g["BUILD"], g["REPO"]
+
+    def census():
+        """every call in spok's non-test packages that can mutate the file system, as (package, function, callee)"""
+        p = subprocess.run([os.path.join(BUILD, "verifh"), "census", REPO], stdout=subprocess.PIPE, stderr=subprocess.PIPE, text=True)
+        got = [l for l in p.stdout.splitlines() if l.strip()]
+        want = [l for l in open(os.path.join(ROOT, "corpus/census.expected")).read().splitlines() if l.strip()]
+        if got != want:
+            return False, ("the write sites of the source differ from the table the model of C12/C19 rests on: new %s, gone %s"
+                           % (sorted(set(got) - set(want)), sorted(set(want) - set(got))))
+        return True, "%d write sites match the table" % len(got)
     hash_rule = ("real files under a private root: all permutations of small base lists (with duplicates and directories), "
                  "every position of an unreadable entry in lists <= 6, random lists with sizes around NumCPU, one large list; "
                  "GOMAXPROCS cycles through 1,2,4,16; each case runs in a child process built with the race detector")
@@ -100,6 +120,21 @@ def register_props(PROPS, g):
                                     "the shell's treatment of the substituted text is not modelled: commands are generated so that it is inert (single-quoted) and the environment is read with printf '%s'",
                                     "exec(...)'s standard output and status are inputs of the model"],
                     "trusted_extra": ["mvdan.cc/sh (ListEnviron: last duplicate wins), godotenv and text/template are modelled for the fragment above, not verified"]}
+    PROPS["C12"] = {"components": ["clean"], "oracle": ["C12"], "decode": None, "extra": [("write-site-census", census)],
+                    "nontrivial": ("distinct_nontrivial", "cases whose spokfile declares at least two outputs"),
+                    "rule": "the built binary's --clean in a sandbox HOME (canary files beside and above the project): random project trees x spokfiles with 0-4 outputs per task of each kind "
+                            "(literals incl. '', '.', '..', a directory, the spokfile itself; variables evaluating to '', '.', '..', 'gen/../..', join(...) ; globs incl. ones matching nothing), "
+                            "undefined named outputs, with and without a task named clean, from the root and from a nested directory; full directory snapshot before and after",
+                    "assumptions": ["the file system is a set of paths; RemoveAll(t) removes t and everything below; symbolic links and permissions are outside the model",
+                                    "output globs are expanded with the Glob model (C05)"],
+                    "trusted_extra": ["a census of every file-system mutating call in spok's non-test packages is compared with corpus/census.expected on every run"]}
+    PROPS["C19"] = {"components": ["effects"], "oracle": ["C19"], "decode": None, "extra": [("write-site-census", census)],
+                    "nontrivial": ("distinct_nontrivial", "invocations that changed at least one path"),
+                    "rule": "the built binary in a sandbox HOME: random project trees x valid, unparsable and unloadable spokfiles (or none) x actions/flags from "
+                            "{none, task names, --show, --vars, --fmt, --init, --clean, --force, --quiet, --json, --debug} from the project root and a nested directory (sometimes with its own spokfile); "
+                            "every file of the sandbox is hashed before and after and each changed path must be one the model's write_kind allows",
+                    "assumptions": ["task commands in these runs have no side effects (echo)", "OS semantics (permissions, links) are outside the model"],
+                    "trusted_extra": ["a census of every file-system mutating call in spok's non-test packages is compared with corpus/census.expected on every run"]}
     PROPS["C03"] = {"components": ["graph"], "oracle": ["C03"], "decode": None,
                     "nontrivial": ("distinct_nontrivial", "cases whose selected task set (closure of the request) has at least two tasks"),
                     "rule": "spokfiles generated from dependency graphs, parsed, loaded with file.New and run with SpokFile.Run and a recording runner; "
